@@ -787,7 +787,7 @@ theorem stepOK_go_ext {s s' s'' : St} {p a g} {o tl : List Obs} {es : List Entry
   obtain ⟨t1, t2, t3, t4, t5⟩ := htl
   refine ⟨hk.trans hx.k, ?_, ?_, ?_⟩
   · simp only [procsOf, entriesOf, gotOf, procsOf_append, entriesOf_append, gotOf_append, hx.onlyH.procsOf,
-      hx.onlyH.gotOf, t1, t2, t3, List.append_nil, List.nil_append]
+      hx.onlyH.gotOf, t1, t2, t3, List.append_nil]
     have hinv := Inv.clear (h.ext hx (p' := p ++ [(sr, it)]) (by rw [userProcs_append, hu]) (by
       intro id m x hc hx' hxm
       rw [lastProc_concat]
@@ -1208,5 +1208,255 @@ theorem mem_timersOf {y : Nat × Bytes} : ∀ (obs : List Obs) (c : Timers),
       rcases ih _ h with h1 | ⟨sr, p, hm⟩
       · exact Or.inl h1
       · exact Or.inr ⟨sr, p, by simpa [entriesOf] using hm⟩
+
+/-! ## calls abandoned by a redeploy are never served -/
+
+/-- senders turned away by a redeploy that have not started a new `HandleEvent` call since -/
+def awayOf : List Nat → List Obs → List Nat
+  | c, [] => c
+  | c, .aligned sr _ :: r => awayOf (c.filter (· ≠ sr)) r
+  | c, .busy _ :: r => awayOf c r
+  | c, .proc _ _ :: r => awayOf c r
+  | c, .handler _ _ _ :: r => awayOf c r
+  | c, .fired _ _ :: r => awayOf c r
+  | c, .reg _ _ :: r => awayOf c r
+  | c, .reject _ _ _ :: r => awayOf c r
+  | c, .snap _ _ _ :: r => awayOf c r
+  | c, .ack _ :: r => awayOf c r
+  | c, .released _ :: r => awayOf c r
+  | c, .ackfail _ :: r => awayOf c r
+  | c, .completed _ :: r => awayOf c r
+  | c, .stopped :: r => awayOf c r
+  | c, .redeployed l :: r => awayOf (l ++ c) r
+
+/-- trace checker: the consumer never takes an item of a sender that was turned away and has not called again -/
+def awayOK : List Nat → List Obs → Prop
+  | _, [] => True
+  | c, .aligned sr _ :: r => awayOK (c.filter (· ≠ sr)) r
+  | c, .busy _ :: r => awayOK c r
+  | c, .proc sr _ :: r => sr ∉ c ∧ awayOK c r
+  | c, .handler _ _ _ :: r => awayOK c r
+  | c, .fired _ _ :: r => awayOK c r
+  | c, .reg _ _ :: r => awayOK c r
+  | c, .reject _ _ _ :: r => awayOK c r
+  | c, .snap _ _ _ :: r => awayOK c r
+  | c, .ack _ :: r => awayOK c r
+  | c, .released _ :: r => awayOK c r
+  | c, .ackfail _ :: r => awayOK c r
+  | c, .completed _ :: r => awayOK c r
+  | c, .stopped :: r => awayOK c r
+  | c, .redeployed l :: r => awayOK (l ++ c) r
+
+theorem awayOf_append (c : List Nat) (a b : List Obs) : awayOf c (a ++ b) = awayOf (awayOf c a) b := by
+  induction a generalizing c with
+  | nil => rfl
+  | cons x r ih => cases x <;> simp [awayOf, ih]
+
+theorem awayOK_append (c : List Nat) (o1 o2 : List Obs) :
+    awayOK c (o1 ++ o2) ↔ awayOK c o1 ∧ awayOK (awayOf c o1) o2 := by
+  induction o1 generalizing c with
+  | nil => simp [awayOK, awayOf]
+  | cons x r ih => cases x <;> simp [awayOK, awayOf, ih, and_assoc]
+
+/-- observations of the consumer's event functions: no call starts, no item is taken, no redeploy -/
+def Quiet (o : List Obs) : Prop :=
+  ∀ x ∈ o, (∀ sr b, x ≠ Obs.aligned sr b) ∧ (∀ sr it, x ≠ Obs.proc sr it) ∧ ∀ l, x ≠ Obs.redeployed l
+
+theorem Quiet.nil : Quiet [] := by intro x hx; cases hx
+
+theorem Quiet.append {a b : List Obs} (ha : Quiet a) (hb : Quiet b) : Quiet (a ++ b) := by
+  intro x hx
+  rcases List.mem_append.mp hx with h | h
+  · exact ha x h
+  · exact hb x h
+
+theorem Quiet.tail {x : Obs} {r : List Obs} (h : Quiet (x :: r)) : Quiet r :=
+  fun y hy => h y (List.mem_cons_of_mem _ hy)
+
+theorem OnlyH.quiet {o : List Obs} (h : OnlyH o) : Quiet o := by
+  intro x hx
+  rcases h x hx with ⟨_, _, _, rfl⟩ | ⟨_, _, rfl⟩ <;> exact ⟨by intros; simp, by intros; simp, by intros; simp⟩
+
+theorem Quiet.away {o : List Obs} (h : Quiet o) (c : List Nat) : awayOf c o = c ∧ awayOK c o := by
+  induction o with
+  | nil => exact ⟨rfl, trivial⟩
+  | cons x r ih =>
+    have hx := h x List.mem_cons_self
+    have ⟨i1, i2⟩ := ih h.tail
+    cases x with
+    | aligned sr b => exact absurd rfl (hx.1 sr b)
+    | proc sr it => exact absurd rfl (hx.2.1 sr it)
+    | redeployed l => exact absurd rfl (hx.2.2 l)
+    | handler _ _ _ | fired _ _ | busy _ | reg _ _ | reject _ _ _ | snap _ _ _ | ack _ | released _ | ackfail _
+    | completed _ | stopped => exact ⟨by simpa [awayOf] using i1, by simpa [awayOK] using i2⟩
+
+theorem quiet_of_forall {o : List Obs}
+    (h : ∀ x ∈ o, (∀ sr b, x ≠ Obs.aligned sr b) ∧ (∀ sr it, x ≠ Obs.proc sr it) ∧ ∀ l, x ≠ Obs.redeployed l) :
+    Quiet o := h
+
+/-- what the consumer's event function does to the slots of other senders, and that it is quiet -/
+theorem process_slots_quiet (s : St) (sr : Nat) (it : Item) :
+    Quiet (process s sr it).2 ∧ ∀ x, s.slots x = none → (process s sr it).1.slots x = none := by
+  have hq1 : ∀ (x : Obs), x ∈ ([] : List Obs) → False := by intro x hx; cases hx
+  cases it with
+  | ev key pl t =>
+    have hx := addEntry_ext s (.user sr key pl t)
+    exact ⟨hx.onlyH.quiet, fun x h => by simp only [process]; rw [hx.slots]; exact h⟩
+  | wm ts =>
+    simp only [process]
+    obtain ⟨o, es, ho, hext, _, _⟩ := fireLoop_ext sr
+      (minWm s.k fun i => if i = sr then ts else s.wms i) s.timers.length
+      { s with wms := fun i => if i = sr then ts else s.wms i,
+               watermark := minWm s.k fun i => if i = sr then ts else s.wms i } []
+    refine ⟨by rw [ho]; simpa using hext.onlyH.quiet, fun x h => ?_⟩
+    rw [hext.slots]
+    exact h
+  | done =>
+    simp only [process]
+    have hf := flush_ext s
+    refine ⟨?_, fun x h => by rw [hf.slots]; exact h⟩
+    refine hf.onlyH.quiet.append ?_
+    intro x hx
+    split at hx <;> simp at hx <;> (rcases hx with rfl | rfl) <;> simp
+  | bar id =>
+    simp only [process]
+    have hf := flush_ext s
+    have hrel : ∀ x, s.slots x = none → release (flush s).1.slots x = none := by
+      intro x h
+      simp [release, hf.slots, h]
+    have hqs : ∀ (a b c : Obs), (∀ x ∈ [a, b, c], (∀ sr b, x ≠ Obs.aligned sr b) ∧ (∀ sr it, x ≠ Obs.proc sr it) ∧
+        ∀ l, x ≠ Obs.redeployed l) → Quiet ([Obs.reg sr id] ++ (flush s).2 ++ [a, b, c]) := by
+      intro a b c h
+      refine Quiet.append (Quiet.append ?_ hf.onlyH.quiet) h
+      intro x hx
+      simp at hx
+      subst hx
+      simp
+    unfold barrier
+    simp only []
+    split
+    · exact ⟨by intro x hx; simp at hx; subst hx; simp, fun x h => h⟩
+    · split
+      · split
+        · exact ⟨hqs _ _ _ (by intro x hx; simp at hx; rcases hx with rfl | rfl | rfl <;> simp), hrel⟩
+        · exact ⟨hqs _ _ _ (by intro x hx; simp at hx; rcases hx with rfl | rfl | rfl <;> simp), hrel⟩
+      · exact ⟨by intro x hx; simp at hx; subst hx; simp, fun x h => h⟩
+
+/-- senders in `c` have no call in flight -/
+def NoneAt (c : List Nat) (s : St) : Prop := ∀ x ∈ c, s.slots x = none
+
+theorem step_away (s : St) (c : List Nat) (h : NoneAt c s) (act : Act) :
+    NoneAt (awayOf c (step s act).2) (step s act).1 ∧ awayOK c (step s act).2 := by
+  unfold step
+  split
+  · exact ⟨h, trivial⟩
+  · cases act with
+    | align sr it =>
+      simp only [stepLive]
+      split
+      · split
+        · exact ⟨by simpa [awayOf] using h, by simp [awayOK]⟩
+        · refine ⟨?_, by simp [awayOK]⟩
+          intro x hx
+          simp only [awayOf, List.mem_filter, decide_eq_true_eq] at hx
+          simp only [hx.2, if_false]
+          exact h x hx.1
+      · exact ⟨h, trivial⟩
+    | go sr =>
+      by_cases hsr : sr < s.k
+      · cases hs : s.slots sr with
+        | none => rw [stepLive_go_noop (Or.inr (by simp [hs]))]; exact ⟨h, trivial⟩
+        | some v =>
+          obtain ⟨it, b⟩ := v
+          cases b with
+          | false => rw [stepLive_go_noop (Or.inr (by simp [hs]))]; exact ⟨h, trivial⟩
+          | true =>
+            rw [stepLive_go_run hsr hs]
+            obtain ⟨hq, hsl⟩ := process_slots_quiet s sr it
+            obtain ⟨q1, q2⟩ := hq.away c
+            refine ⟨?_, ?_⟩
+            · simp only [awayOf, q1]
+              intro x hx
+              by_cases hxs : x = sr
+              · simp [hxs]
+              · simp only [hxs, if_false]
+                exact hsl x (h x hx)
+            · simp only [awayOK]
+              refine ⟨?_, q2⟩
+              intro hin
+              rw [h sr hin] at hs
+              cases hs
+      · rw [stepLive_go_noop (Or.inl hsr)]; exact ⟨h, trivial⟩
+    | tick =>
+      have hx := timeout_ext s s.lastSet
+      obtain ⟨q1, q2⟩ := hx.onlyH.quiet.away c
+      exact ⟨by simp only [stepLive, q1]; intro x hxc; rw [hx.slots]; exact h x hxc, q2⟩
+    | stale =>
+      have hx := timeout_ext s s.prevSet
+      obtain ⟨q1, q2⟩ := hx.onlyH.quiet.away c
+      exact ⟨by simp only [stepLive, q1]; intro x hxc; rw [hx.slots]; exact h x hxc, q2⟩
+    | armFail => exact ⟨fun x hx => h x hx, trivial⟩
+    | redeploy =>
+      simp only [stepLive, redeploy, awayOf, awayOK, and_true]
+      intro x hx
+      rcases List.mem_append.mp hx with hx | hx
+      · have hp : isParked s x = true := by
+          simp only [parkedList, List.mem_filter] at hx
+          exact hx.2
+        unfold isParked at hp
+        cases hs : s.slots x with
+        | none => dsimp only; rw [hs]
+        | some v =>
+          obtain ⟨it, b⟩ := v
+          cases b with
+          | false => dsimp only; rw [hs]
+          | true => simp [hs] at hp
+      · dsimp only; rw [h x hx]
+
+theorem runFrom_away : ∀ (as : List Act) (s : St) (acc : List Obs),
+    NoneAt (awayOf [] acc) s → awayOK [] acc →
+    NoneAt (awayOf [] (runFrom s acc as).2) (runFrom s acc as).1 ∧ awayOK [] (runFrom s acc as).2 := by
+  intro as
+  induction as with
+  | nil => intro s acc h1 h2; exact ⟨h1, h2⟩
+  | cons act as ih =>
+    intro s acc h1 h2
+    obtain ⟨n1, n2⟩ := step_away s _ h1 act
+    simp only [runFrom]
+    apply ih
+    · rw [awayOf_append]; exact n1
+    · rw [awayOK_append]; exact ⟨h2, n2⟩
+
+/-- after a sender was turned away by a redeploy, the consumer takes an item of it only after it started a new call -/
+theorem awayOK_new_call {sr : Nat} {it : Item} : ∀ (mid : List Obs) (c : List Nat) (post : List Obs),
+    sr ∈ c → awayOK c (mid ++ .proc sr it :: post) → ∃ b, Obs.aligned sr b ∈ mid := by
+  intro mid
+  induction mid with
+  | nil =>
+    intro c post hc h
+    simp only [List.nil_append, awayOK] at h
+    exact absurd hc h.1
+  | cons x r ih =>
+    intro c post hc h
+    cases x with
+    | aligned x b =>
+      by_cases hxs : x = sr
+      · exact ⟨b, by rw [hxs]; exact List.mem_cons_self⟩
+      · simp only [List.cons_append, awayOK] at h
+        obtain ⟨b', hm⟩ := ih _ post (List.mem_filter.mpr ⟨hc, by simpa using Ne.symm hxs⟩) h
+        exact ⟨b', List.mem_cons_of_mem _ hm⟩
+    | redeployed l =>
+      simp only [List.cons_append, awayOK] at h
+      obtain ⟨b', hm⟩ := ih _ post (List.mem_append_right _ hc) h
+      exact ⟨b', List.mem_cons_of_mem _ hm⟩
+    | proc x i =>
+      simp only [List.cons_append, awayOK] at h
+      obtain ⟨b', hm⟩ := ih _ post hc h.2
+      exact ⟨b', List.mem_cons_of_mem _ hm⟩
+    | handler _ _ _ | fired _ _ | busy _ | reg _ _ | reject _ _ _ | snap _ _ _ | ack _ | released _ | ackfail _
+    | completed _ | stopped =>
+      simp only [List.cons_append, awayOK] at h
+      obtain ⟨b', hm⟩ := ih _ post hc h
+      exact ⟨b', List.mem_cons_of_mem _ hm⟩
 
 end Rxn.Align
